@@ -5,10 +5,12 @@ pub mod c02_ref;
 pub mod c04_meta;
 pub mod c05_queue;
 pub mod c06_failed;
+pub mod c07_history;
 pub mod c10_history;
 pub mod c11_saveload;
 pub mod c23_bloom;
 pub mod c28_rollback;
+pub mod c38_actorseq;
 
 pub fn registry() -> Vec<Box<dyn Check>> {
     vec![
@@ -17,10 +19,12 @@ pub fn registry() -> Vec<Box<dyn Check>> {
         Box::new(c04_meta::C04),
         Box::new(c05_queue::C05),
         Box::new(c06_failed::C06),
+        Box::new(c07_history::C07),
         Box::new(c10_history::C10),
         Box::new(c11_saveload::C11),
         Box::new(c11_saveload::C12),
         Box::new(c23_bloom::C23),
         Box::new(c28_rollback::C28),
+        Box::new(c38_actorseq::C38),
     ]
 }
